@@ -166,15 +166,22 @@ CHECKS = {
                   "file at least the bytes it had when that Sync returned. During Recover, Migrate and index.Write (their programs of file-system steps, fsyncs included, in "
                   "RecoverCrash.v) the segment's log and index files are durable after EVERY step - both only write to temporary "
                   "files, fsync them and rename them into place (live_durable theorems) - so a power loss inside them leaves one of the "
-                  "crash images of the C05 theorems, never a torn live file. NOT proved: the fsync calls of delete-by-rewrite "
-                  "(observed through the tap only). Tied to /repo by comparing the write / fsync / create events of every Publish, "
-                  "Sync and Close with the steps Durable.v computes, and by power-loss images synthesized from the tap: every file cut to its "
+                  "crash images of the C05 theorems, never a torn live file. Delete (DurableDelete.v): the complete program of a Delete on "
+                  "that file table - writer.Sync when the target is the writing segment, Segment.Rewrite with its two fsyncs, writer.Sync "
+                  "again, then the renames / removals / creation of a new writing segment of CrashDir.delete_prog, decided from the model "
+                  "state as Model.log_delete decides - keeps, after EVERY step, every <base>.log / <base>.index file other than those of "
+                  "the writing segment and of a header-only writing segment the Delete creates entirely on stable storage "
+                  "(delete_steps_keep_durable; the proof uses that the rewritten files are fsynced before they take a segment's name), "
+                  "and leaves its temporary files durable. NOT proved: how this composes with the byte-level theorems over a whole "
+                  "directory. Tied to /repo by comparing the write / fsync / create events of every Publish, "
+                  "Sync and Close with the steps Durable.v computes, every file-system step of every Delete (syncs, rewrite, swap) with "
+                  "DurableDelete.delete_full, and by power-loss images synthesized from the tap: every file cut to its "
                   "fsynced length (and to every length between that and its current length at record granularity), unsynced creates/renames "
                   "dropped per directory-fsync; each image recovered on implementation and model; oracle: every live message below the last "
                   "acknowledged offset (Sync return, AutoSync Publish return, Close) present, survivors a prefix of the acknowledged "
                   "sequence, NextOffset >= acknowledged offset.",
-             ref='6/C06', technique='Coq proof (recovery of a log cut at any byte keeps everything below the cut; fsync protocol of Publish/Sync/Close on a file table) + power-loss image enumeration through an FS tap',
-             note="The fsync calls of Delete, Recover and Migrate are observed on finite workloads, not proved; file-system semantics (prefix-preserving loss, "
+             ref='6/C06', technique='Coq proof (recovery of a log cut at any byte keeps everything below the cut; fsync protocol of Publish/Sync/Close/Delete on a file table) + power-loss image enumeration through an FS tap',
+             note="The programs of file-system steps are tied to the code by comparison with the FS tap on finite workloads; file-system semantics (prefix-preserving loss, "
                   "directory fsync) are the harness's assumption. " + COMMON_NOTE),
  'C01': dict(text="Proof (Coq): for every history of API calls on one directory - Open in any mode (Check/Recover/EagerVersionMigrate, "
                   "read-write or read-only, any rollover size, either format version), Close, Publish, Delete, Consume, Get, GetByKey, "
